@@ -20,6 +20,9 @@ type C05Case struct {
 	ArcTol     float64     `json:"arc_tol"`
 	UseObject  bool        `json:"use_object"` // ClipperOffset object instead of InflatePaths64
 	Reversed   bool        `json:"reversed"`   // outers negative, holes positive
+	// options of the ClipperOffset object (UseObject only); neither may change the region
+	PreserveCollinear bool `json:"preserve_collinear,omitempty"`
+	ReverseSolution   bool `json:"reverse_solution,omitempty"`
 }
 
 // drawStar draws a star-shaped polygon around (cx,cy) with radii in [rmin,rmax], counter-clockwise.
@@ -213,6 +216,10 @@ func drawC05(t *rapid.T) *C05Case {
 		c.Groups = append(c.Groups, g2)
 	}
 	c.UseObject = len(c.Groups) > 1 || rapid.Bool().Draw(t, "useObject")
+	if c.UseObject {
+		c.PreserveCollinear = rapid.IntRange(0, 3).Draw(t, "preserveCollinear") == 0
+		c.ReverseSolution = rapid.IntRange(0, 3).Draw(t, "reverseSolution") == 0
+	}
 	c.Join = rapid.SampledFrom([]c2.JoinType{c2.Miter, c2.Square, c2.Bevel, c2.Round}).Draw(t, "join")
 	c.MiterLimit = rapid.SampledFrom([]float64{2, 1, 1.5, 3, 10}).Draw(t, "miterLimit")
 	switch rapid.IntRange(0, 7).Draw(t, "deltaKind") {
@@ -235,7 +242,7 @@ func runInflate(c *C05Case, endType c2.EndType) Paths {
 	if !c.UseObject && len(c.Groups) == 1 {
 		return c2.InflatePaths64(c.Groups[0], c.Delta, c.Join, endType, c2.WithMitterLimit(c.MiterLimit), c2.WithArcTolerance(c.ArcTol))
 	}
-	co := c2.NewClipperOffset(c.MiterLimit, c.ArcTol, false, false)
+	co := c2.NewClipperOffset(c.MiterLimit, c.ArcTol, c.PreserveCollinear, c.ReverseSolution)
 	for _, g := range c.Groups {
 		co.AddPaths(g, c.Join, endType)
 	}
@@ -284,7 +291,11 @@ func judgeC05(c *C05Case, cx *Ctx) *Violation {
 	if c.Reversed {
 		sign = -1
 	}
-	label := []string{"join:" + joinName(c.Join), boolLabel("reversed", c.Reversed), boolLabel("object", c.UseObject), boolLabel("two-groups", len(c.Groups) > 1)}
+	resSign := sign // the result keeps the orientation convention of the input unless ReverseSolution is set
+	if c.ReverseSolution {
+		resSign = -sign
+	}
+	label := []string{boolLabel("option:preserve-collinear", c.PreserveCollinear), boolLabel("option:reverse-solution", c.ReverseSolution), "join:" + joinName(c.Join), boolLabel("reversed", c.Reversed), boolLabel("object", c.UseObject), boolLabel("two-groups", len(c.Groups) > 1)}
 	smooth := false
 	for _, g := range c.Groups {
 		for _, p := range g {
@@ -357,8 +368,8 @@ func judgeC05(c *C05Case, cx *Ctx) *Violation {
 		dist := kit.MinDist(q, in, true)
 		ws, onSol := kit.Wind(sol, q)
 		// canonical winding (off the solution edges)
-		if !onSol && ws != 0 && ws != sign && kit.FarFrom(q, sol, true, band) {
-			return violf("offset result has winding number %d at %v (allowed 0 or %d); result=%v", ws, q, sign, sol)
+		if !onSol && ws != 0 && ws != resSign && kit.FarFrom(q, sol, true, band) {
+			return violf("offset result has winding number %d at %v (allowed 0 or %d); result=%v", ws, q, resSign, sol)
 		}
 		// cmin*|delta| is the least distance of the ideal result boundary from the source
 		// side it moves away from: 1 for Round/Miter/Square, 0 for Bevel (a bevel chord at a
